@@ -27,6 +27,8 @@ inductive Op (V : Type) where
   | upsert (k : Nat) (v : V)
   | update (k : Nat) (v : V)
   | ensert (k : Nat) (v : V)
+  /-- `hawk_rbt_cbsert` with a callback that decides as `f` (see `Hawk.Rbt.cbsert`) -/
+  | cbsert (k : Nat) (f : Option V → Option V)
   | delete (k : Nat)
   | clear
 
@@ -35,6 +37,7 @@ def step (t : T V) : Op V → T V
   | .upsert k v => (upsert t k v).1
   | .update k v => (update t k v).1
   | .ensert k v => (ensert t k v).1
+  | .cbsert k f => (cbsert t k f).1
   | .delete k => (delete t k).1
   | .clear => clear t
 
@@ -48,6 +51,9 @@ def specStep (xs : List (Nat × V)) : Op V → List (Nat × V)
   | .upsert k v => insList k v xs
   | .update k v => if (alookup k xs).isSome then insList k v xs else xs
   | .ensert k v => if (alookup k xs).isSome then xs else insList k v xs
+  | .cbsert k f => match f (alookup k xs) with
+    | some v' => insList k v' xs
+    | none => xs
   | .delete k => delList k xs
   | .clear => []
 
@@ -90,6 +96,24 @@ theorem insert_inv (opt : Opt) (t : T V) (k : Nat) (v : V) (h : Inv t) : Inv (in
     · exact ⟨ho, hc, hn, hb⟩
     · exact hins
 
+/-- `hawk_rbt_cbsert` keeps the red-black invariants whatever the callback decides
+    (keep, change in place, re-allocate, create, fail) -/
+theorem cbsert_inv (t : T V) (k : Nat) (f : Option V → Option V) (h : Inv t) : Inv (cbsert t k f).1 := by
+  unfold cbsert
+  split
+  · rename_i v0 hs
+    split
+    · exact h
+    · rename_i v' _
+      have := insert_inv .upsert t k v' h
+      simpa [insertOp, hs] using this
+  · rename_i hs
+    split
+    · exact h
+    · rename_i v' _
+      have := insert_inv .upsert t k v' h
+      simpa [insertOp, hs] using this
+
 /-- delete keeps the red-black invariants (all cases of `delete_pair` / `adjust_for_delete`) -/
 theorem delete_inv (t : T V) (k : Nat) (h : Inv t) : Inv (delete t k).1 := by
   obtain ⟨ho, hc, hn, hb⟩ := h
@@ -111,6 +135,7 @@ theorem step_inv (t : T V) (op : Op V) (h : Inv t) : Inv (step t op) := by
   | upsert k v => exact insert_inv .upsert t k v h
   | update k v => exact insert_inv .update t k v h
   | ensert k v => exact insert_inv .ensert t k v h
+  | cbsert k f => exact cbsert_inv t k f h
   | delete k => exact delete_inv t k h
   | clear => simp only [step, clear_empty]; exact empty_inv
 
@@ -196,6 +221,28 @@ theorem ensert_spec (t : T V) (k : Nat) (v : V) (h : Inv t) :
   refine ⟨fun v0 hs => by simp [hs], fun hs => ?_⟩
   simp [hs, toList_ins k v t h.1]
 
+/-- `hawk_rbt_cbsert`: the callback sees the dictionary's current value for the key (or none);
+    if it fails nothing changes and NULL is returned, otherwise the pair it answers is returned
+    and the dictionary maps the key to the answered value -/
+theorem cbsert_spec (t : T V) (k : Nat) (f : Option V → Option V) (h : Inv t) :
+    (f (alookup k (toList t)) = none → cbsert t k f = (t, .failed)) ∧
+    (∀ v', f (alookup k (toList t)) = some v' →
+      toList (cbsert t k f).1 = insList k v' (toList t) ∧ (cbsert t k f).2 = .pair k v') := by
+  rw [← search_spec t k h]
+  unfold cbsert
+  constructor
+  · intro hf
+    cases hs : search t k with
+    | none => rw [hs] at hf; simp [hf]
+    | some v0 => rw [hs] at hf; simp [hf]
+  · intro v' hf
+    cases hs : search t k with
+    | none => rw [hs] at hf; simp [hf, toList_ins k v' t h.1]
+    | some v0 =>
+      rw [hs] at hf
+      have hs' : search t k ≠ none := by rw [hs]; simp
+      simp [hf, toList_setVal k v' t h.1 hs']
+
 /-- `hawk_rbt_delete`: -1/ENOENT and no change on an absent key, otherwise 0 and the pair is gone -/
 theorem delete_spec (t : T V) (k : Nat) (h : Inv t) :
     (alookup k (toList t) = none → delete t k = (t, false)) ∧
@@ -236,6 +283,11 @@ theorem reachable_refines (ops : List (Op V)) : toList (run ops) = specRun ops :
       cases hs : alookup k (toList t) with
       | none => simpa using ((ensert_spec t k v h).2 hs).1
       | some v0 => simp [(ensert_spec t k v h).1 v0 hs]
+    | cbsert k f =>
+      simp only [step, specStep]
+      cases hf : f (alookup k (toList t)) with
+      | none => simp [(cbsert_spec t k f h).1 hf]
+      | some v' => simpa using ((cbsert_spec t k f h).2 v' hf).1
     | delete k =>
       simp only [step, specStep]
       cases hs : alookup k (toList t) with
@@ -343,6 +395,7 @@ def callTree (t : T V) : Call V → T V × Ret V
   | .op (.upsert k v) => ((upsert t k v).1, .res (upsert t k v).2)
   | .op (.update k v) => ((update t k v).1, .res (update t k v).2)
   | .op (.ensert k v) => ((ensert t k v).1, .res (ensert t k v).2)
+  | .op (.cbsert k f) => ((cbsert t k f).1, .res (cbsert t k f).2)
   | .op (.delete k) => ((delete t k).1, .deleted (delete t k).2)
   | .op .clear => (clear t, .cleared)
   | .search k => (t, .found (search t k))
@@ -361,6 +414,9 @@ def callSpec (xs : List (Nat × V)) : Call V → List (Nat × V) × Ret V
   | .op (.ensert k v) => match alookup k xs with
     | some v0 => (xs, .res (.pair k v0))
     | none => (insList k v xs, .res (.pair k v))
+  | .op (.cbsert k f) => match f (alookup k xs) with
+    | some v' => (insList k v' xs, .res (.pair k v'))
+    | none => (xs, .res .failed)
   | .op (.delete k) => (delList k xs, .deleted (alookup k xs).isSome)
   | .op .clear => ([], .cleared)
   | .search k => (xs, .found (alookup k xs))
@@ -400,6 +456,12 @@ theorem call_refines (t : T V) (c : Call V) (h : Inv t) :
       cases hs : alookup k (toList t) with
       | none => have := (ensert_spec t k v h).2 hs; simp [this.1, this.2]
       | some v0 => have := (ensert_spec t k v h).1 v0 hs; simp [this]
+    | cbsert k f =>
+      refine ⟨cbsert_inv t k f h, ?_⟩
+      simp only [callTree, callSpec]
+      cases hf : f (alookup k (toList t)) with
+      | none => have := (cbsert_spec t k f h).1 hf; simp [this]
+      | some v' => have := (cbsert_spec t k f h).2 v' hf; simp [this.1, this.2]
     | delete k =>
       refine ⟨delete_inv t k h, ?_⟩
       simp only [callTree, callSpec]
@@ -442,5 +504,14 @@ example : Inv (run [Op.insert 0 10, .insert 1 11, .insert 2 12, .insert 3 13, .d
     root, then re-colouring) on delete -/
 example : run [Op.insert 5 0, .insert 3 0, .insert 4 0, .insert 6 0, .insert 7 0, .insert 8 0, .delete 3]
     = node B (node B nil 4 0 (node R nil 5 0 nil)) 6 0 (node B nil 7 0 (node R nil 8 0 nil)) := by rfl
+
+/-- `cbsert` with an accumulating callback (existing value + 5, else 7): create, then change -/
+example : run [Op.insert 1 10, .insert 0 11, .cbsert 2 (fun o => some (o.getD 2 + 5)),
+      .cbsert 1 (fun o => some (o.getD 2 + 5)), .cbsert 0 (fun _ => none)]
+    = node B (node R nil 0 11 nil) 1 15 (node R nil 2 7 nil) := by rfl
+
+example : specRun [Op.insert 1 10, .insert 0 11, .cbsert 2 (fun o => some (o.getD 2 + 5)),
+      .cbsert 1 (fun o => some (o.getD 2 + 5)), .cbsert 0 (fun _ => none)]
+    = [(0, 11), (1, 15), (2, 7)] := by rfl
 
 end Hawk.Rbt
